@@ -102,6 +102,12 @@ where
             };
             if force {
                 state = analysis.join(state, in_state)?;
+                // The forced state did not grow: nothing changed, so there is
+                // nothing to propagate. Re-queueing here never terminates on a
+                // cycle when the analysis is not monotone.
+                if state.partial_cmp(in_state) == Some(::std::cmp::Ordering::Equal) {
+                    continue;
+                }
             } else if let Some(ordering) = ordering {
                 return Err(Error::FixedPointOrdering(
                     ordering.to_string(),
@@ -201,6 +207,12 @@ where
             };
             if force {
                 state = analysis.join(state, in_state)?;
+                // The forced state did not grow: nothing changed, so there is
+                // nothing to propagate. Re-queueing here never terminates on a
+                // cycle when the analysis is not monotone.
+                if state.partial_cmp(in_state) == Some(::std::cmp::Ordering::Equal) {
+                    continue;
+                }
             } else if let Some(ordering) = ordering {
                 return Err(Error::FixedPointOrdering(
                     ordering.to_string(),
